@@ -63,6 +63,9 @@ def obligations(tier):
                   stubs=['the inner Chinese time parser is a stub returning TimeResult objects with the symbolic fields (its own behaviour is O7.6)']))
     obs.append(Ob('O10.10-witness-zh-span', 'fn', 'harness.witness:api_witness', slices=[{'w': 'F65'}, {'w': 'F66'}], timeout=t, finding='F65', descr='API witnesses of the repaired F65 / F66 (Chinese time period: seconds dropped from the span; end earlier in the same hour): a reappearance is a violation'))
     obs.append(Ob('O10.10-witness-short-left', 'fn', 'harness.witness:api_witness', slices=[{'w': 'F64'}], timeout=t, finding='F64', descr='API witness of F64 (十一到十二点 read as 1 to 12)'))
+    obs.append(Ob('O10.11-chinese-durations-api', 'fn', 'harness.C10zh:zh_durations_api', timeout=t,
+                  descr='Chinese durations through the public API (small-scope enumeration, not a solver verdict): N <unit>, N <unit>半 and N.5 <unit> for N = 1..30 and seven units: TIMEX P[T]<count><U>, value = count x the unit\'s seconds (count = N or N + 0.5)',
+                  bounds='630 texts', encodes=['recognizers_date_time.date_time.chinese.duration_parser:ChineseDurationParser.parse']))
     from props import _corpus
     import json as _json
     slices, counts, _ = _corpus.slices(tier, 'arith', tag='range3', quick_cap=12)
